@@ -1,6 +1,7 @@
 (* C18 -- authorization-server / OpenID-provider metadata validation. *)
 From Coq Require Import List NArith ZArith Bool Ascii String.
 From Authlib Require Import Base.Bytes Base.PyVal Base.Url Model.Metadata Spec.MetadataSpec Proofs.MetadataP.
+From Authlib Require Import Model.Registration Proofs.RegistrationP.
 Import ListNotations.
 Open Scope string_scope.
 
@@ -58,6 +59,42 @@ Proof.
   rewrite Hm in H. exact H.
 Qed.
 Print Assumptions jwt_auth_requires_alg_list.
+
+(* ---- dynamic registration / update: only validated metadata is stored *)
+Theorem registration_stored_ok :
+  forall tok md jwks_ok payload m,
+  register tok md jwks_ok payload = Stored m -> tok = true /\ payload <> [] /\ stored_ok md m = true.
+Proof. exact registration_stored_ok_l. Qed.
+Print Assumptions registration_stored_ok.
+
+Theorem registration_requires_token :
+  forall md jwks_ok payload, register false md jwks_ok payload = Refused 400 "access_denied".
+Proof. exact registration_requires_token_l. Qed.
+Print Assumptions registration_requires_token.
+
+Theorem update_checks_before_update :
+  forall tok ex perm cid sec md jwks_ok payload m,
+  update tok ex perm cid sec md jwks_ok payload = Stored m ->
+  tok = true /\ ex = true /\ perm = true /\
+  (forall k, In k FORBIDDEN -> mhas k payload = false) /\
+  py_eq (mget "client_id" payload) (PStr cid) = true /\
+  (mhas "client_secret" payload = true -> py_eq (mget "client_secret" payload) (PStr sec) = true) /\
+  stored_ok md m = true.
+Proof. exact update_checks_before_update_l. Qed.
+Print Assumptions update_checks_before_update.
+
+(* every stored redirect URI is a non-empty absolute URI without fragment *)
+Theorem stored_redirect_uris_absolute :
+  forall md m v, stored_ok md m = true -> In v (pv_list (mget "redirect_uris" m)) ->
+  exists s, v = PStr s /\ s <> "" /\ is_valid_url s false = true.
+Proof.
+  intros md m v H Hin. unfold stored_ok in H. rewrite !andb_true_iff in H.
+  destruct H as [[[[[H _] _] _] _] _]. rewrite forallb_forall in H. specialize (H v Hin).
+  unfold redirect_entry_ok in H. apply andb_true_iff in H. destruct H as [Ht Hv].
+  destruct v; try discriminate. exists s. repeat split; auto.
+  intros ->. discriminate.
+Qed.
+Print Assumptions stored_redirect_uris_absolute.
 
 Example a_valid_document :
   let d := [ ("issuer", PStr "https://as.example");
